@@ -269,6 +269,8 @@ class Sut:
             if op.get('bdt'):
                 from hl7apy.factories import datatype_factory
                 P.value = datatype_factory(op['bdt'][0], op['bdt'][1], self.meta[ri]['version'], self.level)
+            elif op.get('obj'):
+                P.value = {'int': 5, 'list': [1], 'dict': {}}[op['obj']]
             else:
                 P.value = op['text']
             return None
@@ -519,7 +521,7 @@ class HistoryWorld:
         if root is None:
             return None
         ec = sut.meta[ri]['ec']
-        if op.get('bad') and op.get('bad') not in ('cardinality', 'datatype_override', 'delete_required'):
+        if op.get('bad') and op.get('bad') not in ('cardinality', 'datatype_override', 'delete_required', 'elem_assign'):
             return 'lost'
         if op.get('bad') == 'datatype_override':
             # followed only for complex -> complex overrides on a field of a known segment (C04's defect
@@ -568,8 +570,33 @@ class HistoryWorld:
                 # a base datatype object assigned to a field / component / subcomponent
                 text = v['bdt'][1]
                 new = EM.node_from_text(t, key, text, ec)
+            elif 'elem' in v:
+                # an element that is attached somewhere is assigned as is: it moves (one parent only)
+                sri, spath = v['elem']
+                sroot = sut.models[sri]
+                if sroot is None or not spath:
+                    return 'lost'
+                sp_parent = EM.resolve(sroot, [(a, b, c) for a, b, c, d in spath[:-1]])
+                st, skey, sr, _ = spath[-1]
+                src = EM.find_rep(sp_parent, st, skey, sr) if sp_parent is not None else None
+                if src is None or st != t:
+                    return 'lost'
+                if sri != ri:
+                    return 'lost'          # cross-root moves: only the structural monitors apply
+                rr = r if via == 'item' else 0
+                dst = EM.find_rep(parent, t, key, rr)
+                if dst is src:
+                    return done()
+                sp_parent.kids = [k_ for k_ in sp_parent.kids if k_ is not src]
+                src.key = key
+                if dst is None:
+                    parent.kids.append(src)
+                else:
+                    i = [id(k_) for k_ in parent.kids].index(id(dst))
+                    parent.kids[i] = src
+                return done()
             else:
-                return 'lost'      # ('elem': an attached element assigned as is -- only C10/C12 apply)
+                return 'lost'
             if via == 'childitem':
                 ci = op['ci']
                 if not (0 <= ci < len(parent.kids)):
@@ -732,6 +759,11 @@ class HistoryWorld:
                 self.fault('rejected:' + (op.get('bad') or type(exc).__name__))
                 self.probe('op_rejected')
                 self.check_c12(s, step, op, before, after, exc)
+                if ids_before is not None and not isinstance(exc, NavError):
+                    created = [i for i in s.all_ids() if i not in ids_before]
+                    if created:
+                        self.violate('C11.write', 'a refused %s leaves elements it created on the way' % self.op_key(op),
+                                     '%s created %d: %r' % (s.tag, len(created), [repr(s.all_ids()[i]) for i in created][:6]), step)
                 for ri_, (b_, a_) in enumerate(zip(before, after)):
                     if b_ != a_:
                         s.models[ri_] = None     # a non-atomic rejection: the model cannot know what is left
